@@ -943,6 +943,65 @@ fn fam_listneg(_func: Option<&str>, only: Option<u64>) {
     rep.print();
 }
 
+// C05, bounded stand-in for the ASSUMED list decider, larger universe than `listneg`: prefixes up to length 3 over
+// {string, number}, optional rest in {string, number}; `a <: b | c` for all 45^3 triples and `a <: b | c | d` with the
+// negatives drawn from every fourth shape; brute force over all lists of length <= 5 over three basic values (a
+// counterexample, if any, exists at length <= longest prefix + 1 = 4).
+fn fam_listneg2(_func: Option<&str>, only: Option<u64>) {
+    let mut rep = Rep::new("listneg2", "list_is_empty", only);
+    let basics = [SubTypeTag::String, SubTypeTag::Number, SubTypeTag::Boolean];
+    type Shape = (Vec<SubTypeTag>, Option<SubTypeTag>);
+    let mut shapes: Vec<Shape> = vec![];
+    for len in 0..=3usize {
+        for code in 0..(1usize << len) {
+            let pre: Vec<SubTypeTag> = (0..len).map(|i| basics[(code >> i) & 1]).collect();
+            shapes.push((pre.clone(), None));
+            for r in [SubTypeTag::String, SubTypeTag::Number] { shapes.push((pre.clone(), Some(r))); }
+        }
+    }
+    let in_shape = |s: &Shape, l: &[SubTypeTag]| -> bool {
+        if l.len() < s.0.len() { return false; }
+        if l.len() > s.0.len() && s.1.is_none() { return false; }
+        l.iter().enumerate().all(|(i, v)| if i < s.0.len() { *v == s.0[i] } else { Some(*v) == s.1 })
+    };
+    let mut lists: Vec<Vec<SubTypeTag>> = vec![vec![]];
+    let mut frontier: Vec<Vec<SubTypeTag>> = vec![vec![]];
+    for _ in 0..5 {
+        let mut next = vec![];
+        for l in &frontier { for b in basics { let mut l2 = l.clone(); l2.push(b); next.push(l2); } }
+        lists.extend(next.iter().cloned());
+        frontier = next;
+    }
+    let mk = |ctx: &mut SemTypeContext, s: &Shape| -> Rc<SemType> {
+        let pre: Vec<Rc<SemType>> = s.0.iter().map(|t| Rc::new(SemType::new_basic(t.code()))).collect();
+        let rest = s.1.map(|t| Rc::new(SemType::new_basic(t.code())));
+        Rc::new(ctx.tuple(pre, rest))
+    };
+    // membership table: shape index -> bitset over lists
+    let member: Vec<Vec<bool>> = shapes.iter().map(|s| lists.iter().map(|l| in_shape(s, l)).collect()).collect();
+    let n = shapes.len();
+    let thin: Vec<usize> = (0..n).filter(|i| i % 4 == 1).collect();
+    let mut ask = |rep: &mut Rep, a: usize, negs: &[usize]| {
+        if !rep.want() { return; }
+        let spec = (0..lists.len()).all(|k| !member[a][k] || negs.iter().any(|b| member[*b][k]));
+        let mut ctx = SemTypeContext::new();
+        let ta = mk(&mut ctx, &shapes[a]);
+        let mut u: Option<Rc<SemType>> = None;
+        for b in negs {
+            let tb = mk(&mut ctx, &shapes[*b]);
+            u = Some(match u { None => tb, Some(x) => match x.union(&tb) { Ok(y) => y, Err(_) => return } });
+        }
+        let descr = format!("tuple shapes (prefix, rest): {:?} <: {}", shapes[a], negs.iter().map(|b| format!("{:?}", shapes[*b])).collect::<Vec<_>>().join(" | "));
+        match ta.is_subtype(&u.unwrap(), &mut ctx) {
+            Ok(r) => if r != spec { rep.fail(descr, format!("is_subtype = {}", r), format!("{} (brute force over all lists of length <= 5)", spec)); },
+            Err(e) => rep.fail(descr, format!("Err({})", e), "Ok".into()),
+        }
+    };
+    for a in 0..n { for b in 0..n { for c in 0..n { ask(&mut rep, a, &[b, c]); } } }
+    for a in 0..n { for b in &thin { for c in &thin { for d in &thin { ask(&mut rep, a, &[*b, *c, *d]); } } } }
+    rep.print();
+}
+
 // C05, bounded stand-in for the ASSUMED object decider (dnf_mapping_is_empty / check_mapping_empty):
 // `A <: B | C` for small object types, against brute force over all objects with keys a, b, c whose
 // values are absent, a string or a number. Reading (mapping.rs, property C05): every EXACT value of A
@@ -1285,6 +1344,7 @@ fn main() {
         "listfold" => fam_listfold(f, only),
         "listneg" => fam_listneg(f, only),
         "mapneg" => fam_mapneg(f, only),
+        "listneg2" => fam_listneg2(f, only),
         "refs" => fam_refs(f, only, false, false),
         "refspanic" => fam_refs(f, only, true, false),
         "refsshared" => fam_refs(f, only, false, true),
